@@ -68,18 +68,23 @@ def witness(inp, msg):
 
 # ------------------------------------------------------------------------------------------------ C17: run sequences
 VERSIONS = {
-    # two crates; `()` makes Swift emit CodableVoid (Codable.swift in multi-file mode)
-    'v1': {'geo/src/lib.rs': '#[typeshare]\npub struct Point { pub x: u32, pub y: u32 }\n#[typeshare]\npub struct Extra { pub e: String }\n',
-           'app/src/lib.rs': 'use geo::Point;\n#[typeshare]\npub struct Holder { pub p: Point, pub u: () }\n'},
+    # two crates; `()` makes Swift emit CodableVoid (Codable.swift in multi-file mode); both crates have a Date-typed field (TypeScript
+    # keeps per-run state for those: the order in which the crates are generated must not vary between runs)
+    'v1': {'geo/src/lib.rs': '#[typeshare]\npub struct Point { #[typeshare(typescript(type = "Date"))] pub at: String, pub x: u32, pub y: u32 }\n#[typeshare]\npub struct Extra { pub e: String }\n',
+           'app/src/lib.rs': 'use geo::Point;\n#[typeshare]\npub struct Holder { #[typeshare(typescript(type = "Date"))] pub when: String, pub p: Point, pub u: () }\n'},
     # same byte length as v1: Point -> Coord
-    'v2': {'geo/src/lib.rs': '#[typeshare]\npub struct Coord { pub x: u32, pub y: u32 }\n#[typeshare]\npub struct Extra { pub e: String }\n',
-           'app/src/lib.rs': 'use geo::Coord;\n#[typeshare]\npub struct Holder { pub p: Coord, pub u: () }\n'},
+    'v2': {'geo/src/lib.rs': '#[typeshare]\npub struct Coord { #[typeshare(typescript(type = "Date"))] pub at: String, pub x: u32, pub y: u32 }\n#[typeshare]\npub struct Extra { pub e: String }\n',
+           'app/src/lib.rs': 'use geo::Coord;\n#[typeshare]\npub struct Holder { #[typeshare(typescript(type = "Date"))] pub when: String, pub p: Coord, pub u: () }\n'},
     # type removed: shorter output
     'v3': {'geo/src/lib.rs': '#[typeshare]\npub struct Point { pub x: u32, pub y: u32 }\n',
            'app/src/lib.rs': 'use geo::Point;\n#[typeshare]\npub struct Holder { pub p: Point }\n'},
 }
 # an earlier tree had a crate named `codable`: in Swift folder mode its module file is Codable.swift, the very file that later
 # has to hold CodableVoid
+# v1 plus one more type per crate, emitted last: the v1 output is a proper prefix of the v5 output (a comparison that only looks at
+# the first len(new) bytes of the old file would keep the stale tail on the v5 -> v1 transition)
+VERSIONS['v5'] = {'geo/src/lib.rs': VERSIONS['v1']['geo/src/lib.rs'] + '#[typeshare]\npub struct Zeta { pub z: u32 }\n',
+                  'app/src/lib.rs': VERSIONS['v1']['app/src/lib.rs'] + '#[typeshare]\npub struct Zeta2 { pub z: u32 }\n'}
 VERSIONS['v4'] = {'codable/src/lib.rs': '#[typeshare]\npub struct Packet { pub n: u32 }\n',
                   'app/src/lib.rs': '#[typeshare]\npub struct Holder { pub n: u32 }\n'}
 RUN_LANGS = [('typescript', 'ts'), ('kotlin', 'kt'), ('swift', 'swift')]
@@ -129,8 +134,8 @@ def runs_case(exe, lang, ext, mode, seq):
 
 
 def scenario_runs(exe, mode_arg, payload):
-    """C17 bound: all sequences of 1..2 runs over 4 and of 3 runs over 3 source-tree versions (rename of equal length, type removed, crate
-    named `codable` replaced) x {single file,
+    """C17 bound: all sequences of 1..2 runs over 5 and of 3 runs over 3 source-tree versions (rename of equal length, type removed, crate
+    named `codable` replaced, last-emitted type removed so that the new output is a prefix of the old) x {single file,
     output folder} x {typescript, kotlin, swift}; after every run each file the run wrote is compared with a run into an empty
     location; an immediately repeated run must leave every modification time unchanged."""
     if mode_arg == 'check':
@@ -147,7 +152,7 @@ def scenario_runs(exe, mode_arg, payload):
                     m = runs_case(exe, lang, ext, mode, list(seq))
                     if m:
                         witness({'lang': lang, 'ext': ext, 'mode': mode, 'sequence': list(seq)}, m)
-    print('no failing input among %d run sequences (<=2 runs over 4 versions, 3 runs over 3 versions; 2 output modes, 3 languages)' % n)
+    print('no failing input among %d run sequences (<=2 runs over 5 versions, 3 runs over 3 versions; 2 output modes, 3 languages)' % n)
 
 
 # ------------------------------------------------------------------------------------------------ C20: configuration
@@ -314,20 +319,30 @@ def scenario_config(exe, mode_arg, payload):
 SRC_DET = {
     'a/src/lib.rs': '#[typeshare]\npub struct PairOf<Left, Right, Third> { pub l: Left, pub r: Right, pub t: Third }\n',
     'a/src/m.rs': '#[typeshare]\npub struct Wrap<Elem, Key> { pub e: Vec<Elem>, pub k: Option<Key> }\n#[typeshare]\n#[serde(tag = "t", content = "c")]\npub enum Ev<Payload> { A(Payload), B { x: u32 } }\n',
-    'b/src/lib.rs': 'use a::Wrap;\n#[typeshare]\npub struct User { pub w: Wrap<u32, String>, pub d: std::collections::HashMap<String, u32> }\n#[typeshare]\npub type Id = String;\n',
+    # wildcard next to an explicit import of the same crate (the expansion must not depend on hash iteration order)
+    'b/src/lib.rs': 'use a::*;\nuse a::Wrap;\n#[typeshare]\npub struct User { pub w: Wrap<u32, String>, pub d: std::collections::HashMap<String, u32>, pub p: PairOf<u32, u32, u32> }\n#[typeshare]\npub type Id = String;\n',
+    # two files of one crate import same-named types from two different crates
+    'c/src/lib.rs': '#[typeshare]\npub struct Shared { pub c: u32 }\n',
+    'd/src/lib.rs': '#[typeshare]\npub struct Shared { pub d: u32 }\n',
+    'b/src/s1.rs': 'use c::Shared;\n#[typeshare]\npub struct ViaC { pub s: Shared, #[typeshare(typescript(type = "Date"))] pub at: String }\n',
+    'b/src/s2.rs': 'use d::Shared;\n#[typeshare]\npub struct ViaD { pub s: Shared, #[typeshare(typescript(type = "Date"))] pub at: String }\n',
 }
-# consts only for the back ends that support them (Kotlin / Swift / Scala hit todo!() - seen-but-undecided, DESIGN.md 10.4)
 SRC_DET_CONSTS = {'a/src/k1.rs': '#[typeshare]\npub const ALPHA: u32 = 1;\n', 'a/src/k2.rs': '#[typeshare]\npub const BETA: u32 = 2;\n'}
 DET_LANGS = [('typescript', 'ts'), ('kotlin', 'kt'), ('swift', 'swift'), ('python', 'py'), ('go', 'go')]
 
 
 def scenario_determinism(exe, mode_arg, payload):
-    """C06 bound: 8 fresh processes (fresh hash seeds, default walker threads) per (language, output mode) over a 3-file, 2-crate tree with
-    generics, consts and an algebraic enum; all runs of one configuration must produce byte-identical files."""
+    """C06 bound: 8 fresh processes (fresh hash seeds, default walker threads) per (language, output mode) over a 9-file, 4-crate tree with
+    generics, consts, an algebraic enum, a wildcard import and same-named imports from two crates; all runs of one configuration must produce byte-identical files."""
     top = tempfile.mkdtemp(prefix='clirun-', dir=WORK)
     try:
-        src = os.path.join(top, 'src'); tree(src, SRC_DET)
-        srck = os.path.join(top, 'srck'); tree(srck, dict(SRC_DET, **SRC_DET_CONSTS))
+        # single-file mode merges every crate into one output: two types named `Shared` there are the recorded finding
+        # kf-duplicate-names (arrival order), so the same-named pair is only part of the one-module-per-crate runs
+        single = {k: v for k, v in SRC_DET.items() if k.split('/')[0] not in ('c', 'd') and k not in ('b/src/s1.rs', 'b/src/s2.rs')}
+        src = {'folder': os.path.join(top, 'src'), 'file': os.path.join(top, 'src1')}
+        srck = {'folder': os.path.join(top, 'srck'), 'file': os.path.join(top, 'srck1')}
+        tree(src['folder'], SRC_DET); tree(src['file'], single)
+        tree(srck['folder'], dict(SRC_DET, **SRC_DET_CONSTS)); tree(srck['file'], dict(single, **SRC_DET_CONSTS))
         n = 0
         combos = [(l, e, m) for (l, e) in DET_LANGS for m in ('file', 'folder')]
         if mode_arg == 'check':
@@ -340,7 +355,7 @@ def scenario_determinism(exe, mode_arg, payload):
                 o = os.path.join(top, 'o_%s_%s_%d' % (lang, mode, k)); os.makedirs(o)
                 args = ['--lang', lang] + (['--java-package', 'com.x'] if lang == 'kotlin' else []) + (['--go-package', 'p'] if lang == 'go' else [])
                 args += (['--output-file', os.path.join(o, 'out.' + ext)] if mode == 'file' else ['--output-folder', o])
-                use = srck if lang in ('typescript', 'python', 'go') else src
+                use = (srck if lang in ('typescript', 'python', 'go') else src)[mode]   # Kotlin / Swift report consts as unsupported
                 rc, out = run(exe, args + [use], cwd=use)
                 n += 1
                 if rc != 0:
